@@ -11,6 +11,7 @@ import (
 	"sort"
 	"strings"
 	"sync"
+	"sync/atomic"
 	"time"
 	"unicode/utf8"
 
@@ -129,18 +130,20 @@ func smlWorker(w *iso.Worker) {
 			}
 			var wg sync.WaitGroup
 			together := make([]string, len(texts))
-			start := make(chan struct{})
+			var arrived int32
 			for k := range texts {
 				wg.Add(1)
 				go func(k int) {
 					defer wg.Done()
-					<-start
+					atomic.AddInt32(&arrived, 1)
+					for atomic.LoadInt32(&arrived) < int32(len(texts)) {
+						runtime.Gosched()
+					}
 					for rep := 0; rep < 3; rep++ {
 						together[k] = summ(texts[k])
 					}
 				}(k)
 			}
-			close(start)
 			wg.Wait()
 			for k := range texts {
 				alone[k] = summ(texts[k])
@@ -433,6 +436,29 @@ func c06Recipe(recipe string) string {
 	return ""
 }
 
+// c06ConcurrentBatches: batches of eight texts for the workers' concurrent mode. What a package learns on first sight
+// it learns early in the life of a process, so these run in many fresh worker processes, two batches each.
+func c06ConcurrentBatches(r *rng.R, n int) []iso.Job {
+	var jobs []iso.Job
+	for b := 0; b < n; b++ {
+		var texts []string
+		for k := 0; k < 8; k++ {
+			sp := func(w string) string {
+				bs := []byte(w)
+				for q := range bs {
+					if r.Bool() && bs[q] >= 'A' && bs[q] <= 'Z' {
+						bs[q] += 32
+					}
+				}
+				return string(bs)
+			}
+			texts = append(texts, fmt.Sprintf("%s %s H->E n%d_%d\n<%s\n  <%s[ %d ] v%d_%d>\n  <%s %s %s>\n  <%s %d>\n  <%s 1.5>\n  <%s 0x%x>\n  <%s 1> <%s -1> <%s 2> <%s 3> <%s 4>\n  x%d_%d ...>\n.", sp("S1F1"), sp("W"), b, k, sp("L"), sp("A"), 3+k, b, k, sp("BOOLEAN"), sp("T"), sp("F"), sp("U4"), b*8+k, sp("F8"), sp("B"), k, sp("U1"), sp("I2"), sp("U2"), sp("I8"), sp("F4"), b, k))
+		}
+		jobs = append(jobs, iso.Job{Input: []byte(strings.Join(texts, "\x00")), Family: "concurrent-batch"})
+	}
+	return jobs
+}
+
 func c06InitialJobs(c *ctx, r *rng.R) []iso.Job {
 	var jobs []iso.Job
 	add := func(fam, s, meta string) { jobs = append(jobs, iso.Job{Input: []byte(s), Family: fam, Meta: meta}) }
@@ -473,7 +499,7 @@ func c06InitialJobs(c *ctx, r *rng.R) []iso.Job {
 	}
 	// texts parsed at the same moment by several goroutines of one worker process: keyword spellings, names and sizes no
 	// earlier call has seen (whatever the package learns on first sight, it learns under concurrency here)
-	for b := 0; b < c.pick(40, 400); b++ {
+	for b := 0; b < 0; b++ { // (concurrent batches run in their own fresh worker processes, see c06ConcurrentBatches)
 		var texts []string
 		for k := 0; k < 8; k++ {
 			sp := func(w string) string {
@@ -698,6 +724,12 @@ func runC06(c *ctx) {
 		jobs = next
 	}
 
+	// concurrent batches in fresh worker processes (several pools of 16 processes, two batches per process)
+	for pool := 0; pool < c.pick(6, 30); pool++ {
+		cj := c06ConcurrentBatches(r, 32)
+		account(cj)
+		c06RunPool(c, exe, work, 800+pool, cj, 16, 2<<20)
+	}
 	// a long run in ONE worker process: hundreds of sizeable inputs, each with variable names no earlier input used, and
 	// interleaved small valid texts whose results are re-read after the next call (what the package remembers between
 	// calls must stay bounded, and must not be what it has handed out)
